@@ -120,7 +120,13 @@ def write_sequences(facts):
     try:
         table = writeseq.write_sequences(crate_normal_files("crates/mdk-core"), crate_normal_files("crates/mdk-storage-traits"))
     except writeseq.Fail as e:
-        raise Missing("writeseq:" + str(e))
+        # the broken tie belongs to C12 alone: the other properties' facts are still emitted; with an empty table the theorems
+        # of Props/C12.lean over the table stop checking, and vlib/c12core.py reports `tie:gen:writeseq` with this message
+        facts["writeSeq"] = ("List (Nat × List (List Nat))", "[]", "tools/writeseq.py FAILED: tie:gen:writeseq:" + str(e).replace("-/", "- /"))
+        facts["writeSeqStatus"] = ("List Nat", "[0]", "tie:gen:writeseq:" + str(e).replace("-/", "- /"))
+        print("tie:gen:writeseq:" + str(e), file=sys.stderr)
+        return {}
+    facts["writeSeqStatus"] = ("List Nat", "[1]", "tools/writeseq.py translated every case")
     val = "[" + ", ".join(f"({c}, [" + ", ".join("[" + ", ".join(map(str, p)) + "]" for p in paths) + "])" for c, (_n, paths) in sorted(table.items())) + "]"
     prov = "mdk-core: ordered durable write steps per entry point / case / success path (tools/writeseq.py; step codes there): " + \
            "; ".join(f"{c}={n}: " + " | ".join(",".join(writeseq.step_name(x) for x in p) or "-" for p in paths) for c, (n, paths) in sorted(table.items()))
